@@ -20,13 +20,18 @@ class Restorer:
         """
         If overwrite is enabled, then the restore functionality will overwrite an existing file
         """
-        if not overwrite and self.read_fs.path_exists(trashed_file.original_location):
+        # other implementations record directories with a trailing slash
+        # ("Path=/home/user/dir/"): the entry to recreate is /home/user/dir,
+        # for the existence check as well as for the move
+        destination = (trashed_file.original_location.rstrip(os.sep)
+                       or os.sep)
+        if not overwrite and self.read_fs.path_exists(destination):
             raise IOError(
                 'Refusing to overwrite existing file "%s".' % os.path.basename(
-                    trashed_file.original_location))
+                    destination))
         else:
-            parent = os.path.dirname(trashed_file.original_location)
+            parent = os.path.dirname(destination)
             self.write_fs.mkdirs(parent)
 
-        self.write_fs.move(trashed_file.original_file, trashed_file.original_location)
+        self.write_fs.move(trashed_file.original_file, destination)
         self.write_fs.remove_file(trashed_file.info_file)
